@@ -186,6 +186,24 @@ Proof.
   - destruct A as [h [Hin Hr]]. exists h. split; [exact Hin | apply ref_eqb_eq; exact Hr].
 Qed.
 
+(** ** the kinds the theorems cover: binary nodes, no complement tags, reduction rule
+    "all children equal", interpreter [semk] *)
+
+Definition bink (k : kind) : Prop := k = KBdd \/ k = KMtbdd.
+
+Lemma bink_arity : forall k, bink k -> arity k = 2.
+Proof. intros k [->| ->]; reflexivity. Qed.
+
+Lemma bink_not_bcdd : forall k, bink k -> k <> KBcdd.
+Proof. intros k [->| ->]; discriminate. Qed.
+
+Lemma bink_reduced : forall s ch, bink (s_kind s) -> (reduced s ch <-> ~ all_same ch).
+Proof. intros s ch [E|E]; unfold reduced; rewrite E; tauto. Qed.
+
+Lemma bink_sem_edge : forall s e c, bink (s_kind s) ->
+  sem_edge s e c = semk s (S (nlevels s)) (eref e) c.
+Proof. intros s e c [E|E]; unfold sem_edge; rewrite E; reflexivity. Qed.
+
 (** ** binary nodes *)
 
 Lemma all_same_pair : forall a b : edge, all_same [a; b] <-> a = b.
